@@ -107,6 +107,17 @@ Rmw(t, x, v, o) ==
        /\ scv' = IF o = "sc" THEN Join(scv, c2) ELSE scv
        /\ UNCHANGED <<rel, race>>
 
+\* several relaxed stores by t to the distinct locations in S in one step (initialisation of an object no other thread can see yet:
+\* the constructor of a node before it is published); val(x) is the value stored to x
+BulkStore(t, S, val(_)) ==
+  IF ~Weak THEN /\ hist' = [x \in Locs |-> IF x \in S THEN << [val |-> val(x), view |-> V0] >> ELSE hist[x]]
+                /\ UNCHANGED <<cur, acq, rel, scv, race>>
+  ELSE LET c1 == [x \in Locs |-> IF x \in S THEN Len(hist[x]) + 1 ELSE cur[t][x]] IN
+       /\ hist' = [x \in Locs |-> IF x \in S THEN Append(hist[x], [val |-> val(x), view |-> [rel[t] EXCEPT ![x] = Len(hist[x]) + 1]]) ELSE hist[x]]
+       /\ cur' = [cur EXCEPT ![t] = c1]
+       /\ acq' = [acq EXCEPT ![t] = Join(acq[t], c1)]
+       /\ UNCHANGED <<rel, scv, race>>
+
 \* failed CAS = load of the latest message with the failure order
 CasFail(t, x, o) == Load(t, x, o, Last(x))
 
